@@ -12,7 +12,8 @@ RULE = ("Bool-typed filters of the Django fragment from the typed grammar (as C0
         "rows of the adversarial domain loaded through the ORM into in-memory SQLite. Oracle: ids of "
         "apply_odata_query(Item.objects, filter) vs the reference evaluator on decided rows; a library "
         "exception on a fragment filter or any foreign exception is a violation. Non-trivial: >= 2 "
-        "operator/function nodes and >= 1 decided row; distinct by (filter text, rows).")
+        "operator/function nodes and >= 1 decided row; distinct by (filter text, rows)."
+        " Every case is followed, in the same process, by its look-alike twins (string-literal case swapped, blanks doubled); rows get needle-derived confuser strings; literal-op-literal arithmetic is generated.")
 ASSUMPTIONS = c01.ASSUMPTIONS + ["Django USE_TZ=True/UTC; date-time literals carry Z or an offset",
                                  "SQLite is the only engine"]
 
